@@ -4232,9 +4232,17 @@ impl<'s> Semantics<'s> {
                 Expression::cmpltu(result.clone().into(), lhs)?,
             );
 
-            // store result: dest gets sum, src gets original dest
-            self.operand_store(block, &detail.operands[0], result.into())?;
-            self.operand_store(block, &detail.operands[1], original_dest.into())?;
+            // store result: src gets original dest, dest gets sum. The processor writes the source
+            // first and the destination last, so `xadd r, r` with one register leaves the sum in it.
+            // (A memory destination is stored first: its address must be computed from the
+            // registers as they were before the source register is overwritten.)
+            if detail.operands[0].type_ == x86_op_type::X86_OP_REG {
+                self.operand_store(block, &detail.operands[1], original_dest.into())?;
+                self.operand_store(block, &detail.operands[0], result.into())?;
+            } else {
+                self.operand_store(block, &detail.operands[0], result.into())?;
+                self.operand_store(block, &detail.operands[1], original_dest.into())?;
+            }
 
             block.index()
         };
